@@ -850,4 +850,114 @@ theorem go_strings (env : Env) (args : List Bytes) : ∀ (l : List Bytes) (c : C
     · exact hs
 
 
+/-! ## helpers for what the created outputs show (seed line, run headers, JUnit file names, memory formatter) -/
+
+/-- invariant behind "seed 0 is never used": shuffling implies a non-zero seed -/
+theorem applyOpt_keeps_seed_nonzero (env : Env) (c : Config) (o : Opt)
+    (h : c.shuffling = true → c.shuffleSeed ≠ 0) :
+    (applyOpt env c o).shuffling = true → (applyOpt env c o).shuffleSeed ≠ 0 := by
+  cases o with
+  | flag fl => cases fl <;> simpa [applyOpt, Flag.apply] using h
+  | shuffle => intro _; simpa [applyOpt] using timeSeed_ne_zero env.time
+  | shuffleSeed s => intro _; have := s.pos; simp [applyOpt]; omega
+  | _ => simpa [applyOpt] using h
+
+theorem runHeadersFrom_eq (n : Nat) : ∀ (k i : Nat), runHeadersFrom n i k = (List.range k).map (fun j => (i + j, n))
+  | 0, _ => rfl
+  | k + 1, i => by
+    rw [runHeadersFrom, runHeadersFrom_eq n k (i + 1), List.range_succ_eq_map]
+    simp [Nat.add_assoc, Nat.add_comm 1]
+
+theorem mem_insertBytes (x y : Bytes) : ∀ l : List Bytes, y ∈ insertBytes x l ↔ y = x ∨ y ∈ l
+  | [] => by simp [insertBytes]
+  | z :: zs => by
+    unfold insertBytes
+    split
+    · rename_i h; have : x = z := by simpa using h
+      subst this; simp
+    · split
+      · simp
+      · simp only [List.mem_cons, mem_insertBytes x y zs]
+        constructor <;> (intro h; rcases h with h | h | h <;> simp [h])
+
+theorem mem_sortUniqueBytes (y : Bytes) : ∀ l : List Bytes, y ∈ sortUniqueBytes l ↔ y ∈ l
+  | [] => by simp [sortUniqueBytes]
+  | x :: xs => by
+    have ih := mem_sortUniqueBytes y xs
+    simp only [sortUniqueBytes, List.foldr_cons] at ih ⊢
+    rw [mem_insertBytes, ih]; simp
+
+theorem blockNames_sub (c : Config) : ∀ (ps : List ProbeTest) (cur : Option (Bytes × Bool)) (g : Bytes),
+    g ∈ blockNames c cur ps → g = [] ∨ (∃ p ∈ ps, p.group = g) ∨ (∃ b, cur = some (g, b))
+  | [], none, g => by simp [blockNames]
+  | [], some (g', any), g => by
+    cases any <;> simp [blockNames] <;> (intro h; simp [h])
+  | p :: ps, none, g => by
+    intro h
+    simp only [blockNames] at h
+    rcases blockNames_sub c ps _ g h with h | ⟨q, hq, rfl⟩ | ⟨b, hb⟩
+    · exact Or.inl h
+    · exact Or.inr (Or.inl ⟨q, List.mem_cons_of_mem _ hq, rfl⟩)
+    · simp at hb; exact Or.inr (Or.inl ⟨p, by simp, hb.1⟩)
+  | p :: ps, some (g', any), g => by
+    intro h
+    simp only [blockNames] at h
+    split at h
+    · rcases blockNames_sub c ps _ g h with h | ⟨q, hq, rfl⟩ | ⟨b, hb⟩
+      · exact Or.inl h
+      · exact Or.inr (Or.inl ⟨q, List.mem_cons_of_mem _ hq, rfl⟩)
+      · simp at hb; exact Or.inr (Or.inr ⟨_, by rw [hb.1]⟩)
+    · simp only [List.mem_cons] at h
+      rcases h with h | h
+      · cases any
+        · simp at h; exact Or.inl h
+        · simp at h; exact Or.inr (Or.inr ⟨_, by rw [h]⟩)
+      · rcases blockNames_sub c ps _ g h with h | ⟨q, hq, rfl⟩ | ⟨b, hb⟩
+        · exact Or.inl h
+        · exact Or.inr (Or.inl ⟨q, List.mem_cons_of_mem _ hq, rfl⟩)
+        · simp at hb; exact Or.inr (Or.inl ⟨p, by simp, hb.1⟩)
+
+theorem blockNames_cur_true (c : Config) : ∀ (ps : List ProbeTest) (g : Bytes), g ∈ blockNames c (some (g, true)) ps
+  | [], g => by simp [blockNames]
+  | p :: ps, g => by
+    simp only [blockNames]
+    split
+    · simpa using blockNames_cur_true c ps g
+    · simp
+
+theorem blockNames_selected (c : Config) : ∀ (ps : List ProbeTest) (cur : Option (Bytes × Bool)) (p : ProbeTest),
+    p ∈ ps → selects c p.group p.name = true → p.group ∈ blockNames c cur ps
+  | [], _, _ => by simp
+  | q :: qs, none, p => by
+    intro hp hs
+    simp only [blockNames]
+    rcases List.mem_cons.mp hp with rfl | hp
+    · rw [hs]; exact blockNames_cur_true c qs _
+    · exact blockNames_selected c qs _ p hp hs
+  | q :: qs, some (g, any), p => by
+    intro hp hs
+    simp only [blockNames]
+    rcases List.mem_cons.mp hp with rfl | hp
+    · split
+      · rename_i hg
+        have : p.group = g := by simpa using hg
+        rw [hs, Bool.or_true, ← this]; exact blockNames_cur_true c qs _
+      · rw [hs]; exact List.mem_cons_of_mem _ (blockNames_cur_true c qs _)
+    · split
+      · exact blockNames_selected c qs _ p hp hs
+      · exact List.mem_cons_of_mem _ (blockNames_selected c qs _ p hp hs)
+
+/-- a value without `-` after `-pmemoryreport=` is the formatter type as written -/
+theorem replaceAllAux_no_dash (pat : Bytes) : ∀ (n : Nat) (t : Bytes), (45 : UInt8) ∉ t → t.length ≤ n →
+    replaceAllAux n t (45 :: pat) [] = t
+  | 0, t, _, h => by cases t <;> simp_all [replaceAllAux]
+  | n + 1, [], _, _ => rfl
+  | n + 1, x :: t, hd, hl => by
+    have hx : x ≠ 45 := by intro e; exact hd (by simp [e])
+    have ht : (45 : UInt8) ∉ t := fun h => hd (List.mem_cons_of_mem _ h)
+    have : ¬ ((45 : UInt8) :: pat).isPrefixOf (x :: t) = true := by
+      simp [List.isPrefixOf, Ne.symm hx]
+    simp only [replaceAllAux, this, if_false, Bool.false_eq_true]
+    rw [replaceAllAux_no_dash pat n t ht (by simpa using hl)]
+
 end CommandLine
